@@ -16,15 +16,16 @@ PROPS["C04"] = dict(
                "whose latest op is covered by the clock at those heads when isolated; and, as an invariant of EVERY sequence "
                "of deliveries and commits from the empty document (induction over steps, using the causal-queue theorems), the "
                "incrementally maintained heads (heads - deps + hash) are exactly the applied changes no applied change "
-               "depends on, the applied changes are dependency-closed. Also proved: when the chosen actor's later changes reach higher op "
-               "counters (none is empty) the previous change of the actor an isolated transaction writes as is an ancestor of the "
-               "isolation heads (C04_isolated_prev_is_ancestor), and refuted otherwise (C04_isolated_commit_breaks_chain_refuted: "
-               "change, empty change, transaction isolated at the first change - reproduced on the implementation, finding "
-               "reported under C10). Tied to the code by evaluating the model on the changes "
+               "depends on, the applied changes are dependency-closed. Also proved: the previous change of the actor an isolated transaction writes as is ALWAYS an "
+               "ancestor of the isolation heads (C04_isolated_prev_is_ancestor; the repaired isolate_actor tests the sequence "
+               "clock, not op counters), every created change - plain, empty, isolated - continues its actor's chain "
+               "(C04_commit_continues_chain), and each actor's applied changes form a chain in every state reached by commits and "
+               "by deliveries of chain-continuing changes (C04_chain_invariant). Tied to the code by evaluating the model on the changes "
                "the replica had applied when each transaction started and comparing (actor, seq, start_op, sorted deps) of "
                "EVERY created change, and get_heads after EVERY step (with heads_of and with the incremental fold); the same "
-               "statements are also checked directly on the implementation in ten times as many histories.",
+               "statements (and the chain property of every applied set) are also checked directly on the implementation in ten times as many histories; a directed probe replays the history of the repaired defect fd4a60d8b.",
     rule=META_RULE,
     assumptions=["a created change never receives the hash of a change the document already holds (no SHA-256 collision): hypothesis run_fresh / step_fresh",
+                 "delivered (remote) changes continue their actor's chain: hypothesis run_chain_ok (next seq - the code asserts it - and descent from the actor's previous change)",
                  "isolate_actor's unbounded loop is run with fuel = number of applied changes + 1 in the model"],
 )
